@@ -369,6 +369,9 @@ type ConcCfg struct {
 	Branch func(cond ssa.Value, taken bool, st *ConcState) string
 	// Inline decides whether an eligible helper is explored; nil: all.
 	Inline func(h *ssa.Function) bool
+	// InlineAny: static callees with source in the analysed packages (exported ones included) that are explored
+	// inline although they are not helpers in the sense of Eligible.
+	InlineAny func(h *ssa.Function) bool
 	// Fork lets a rule split the path after an instruction that was not explored inline (an opaque call, the Extract of
 	// its result): one successor per alternative, each with the given facts about values and its own event.
 	Fork      func(in ssa.Instruction, st *ConcState) []ConcAlt
@@ -885,6 +888,12 @@ func ConcPaths(fn *ssa.Function, cfg ConcCfg) (seqs []string, truncated bool) {
 				var hClosure *ssa.MakeClosure
 				if mk, ok := x.Call.Value.(*ssa.MakeClosure); ok {
 					hClosure = mk
+				}
+				if h == nil && cfg.InlineAny != nil && !x.Call.IsInvoke() {
+					// an exported function of the analysed packages that the rule wants explored like a helper
+					if sc := x.Call.StaticCallee(); sc != nil && len(sc.Blocks) > 0 && sc.Synthetic == "" && curProgRoot(sc) && cfg.InlineAny(sc) {
+						h = sc
+					}
 				}
 				if h == nil && !x.Call.IsInvoke() && x.Call.StaticCallee() == nil {
 					// a call through a function VALUE that is evident on this path: a literal, a method value
